@@ -264,16 +264,23 @@ func (pl *Pool) Table(r *ref.R, n int) []string {
 				prefix = ref.Pick(r, []string{"/", "/s/", "/a/", "f"})
 			}
 			k := r.Range(4, 8)
+			fanPrefix := prefix
 			bs := append([]string(nil), FanBytes...)
 			if r.Chance(1, 6) {
 				// siblings that differ inside a multi-byte character: the tree splits literal text at byte granularity,
 				// so their common parent ends in the first two bytes of the character
 				bs = append([]string(nil), CJKFan...)
 				k = r.Range(5, 7)
+				if r.Bool() {
+					// the same behind a parameter: text after a parameter belongs to the parameter's node (for a regexp it is
+					// compiled into the expression), and these siblings part company inside a character
+					t := ref.Pick(r, Tokens)
+					fanPrefix = prefix + t.Text + ref.Pick(r, []string{"", "-", "/"})
+				}
 			}
 			ref.Shuffle(r, bs)
 			for _, fb := range bs[:k] {
-				add(prefix + fb + ref.Pick(r, []string{"", "x", "/", "/q", "y"}))
+				add(fanPrefix + fb + ref.Pick(r, []string{"", "x", "/", "/q", "y"}))
 			}
 			if r.Chance(2, 3) {
 				add(prefix + ref.Pick(r, Tokens).Text)
